@@ -176,6 +176,9 @@ def run_case(case, acc, order):
         spec = c13.make_spec(cfg, case['fill'])
         spec['probes'] = case.get('probes', 'absent')
         spec['sample_rate'] = case.get('sample_rate', 100.0)
+        if case.get('n_spikes'):
+            # beyond one 50 000-spike batch of get_depths
+            spec.update(n_spikes=case['n_spikes'], spike_templates=None, spike_clusters='same')
         res = ac.run_convert(spec=spec, label=label, factor=f)
         if res.get('truth') is not None and res['truth']['pc_features'] is not None and \
                 res['truth']['pc_features'].shape[0] == spec['n_spikes']:
@@ -229,6 +232,9 @@ def explore(ctx):
                                           'label': ['', 'probe00'][i % 2], 'probes': probes,
                                           'sample_rate': [100.0, 30000.0][(i // 2) % 2],
                                           'fill': ctx.seed + i % 3})
+    cases.append({'kind': 'single', 'cfg': dict(default, features='sparse', raw=False), 'factor': 1,
+                  'label': '', 'probes': 'absent', 'sample_rate': 30000.0, 'fill': ctx.seed,
+                  'n_spikes': 50007})
     ctx.run_cases(run_case, cases, sweep='single-probe-sources')
     cases = []
     fam = [0, 1, 2, 4, 5]
